@@ -45,6 +45,11 @@ CHECKS = {
     category="model_checking", design_ref="4 C08",
     text="TLC explores MD/RDA/IG x iteration counts 1-3 x line search on/off x every comparison outcome (forced accept on the 25th trial, zero-loss and zero-Lipschitz exits) and checks that the stored (parameters, marginals) pair is always a legal pair. Every seeded estimation run (3-5 attributes incl. branching junction trees, 0-5 measurements incl. the empty list, totals given/estimated, structural zeros, iteration counts 1,2,3,50, constant step sizes) is traced through hook H2 and its event stream must be a behaviour of the spec (trial counters, exact step-size exponents, branch = comparison, stored pair = last trial's BP pair / averaged iterate); the returned model must satisfy marginals = BP(parameters), and every answer over all attribute subsets must be finite, non-negative, sum to total, agree with the model's own joint and with every other answer.",
     note="numpy backend; object identities renumbered per trace; known finding F15 (unbounded step size at a boundary optimum) is listed in known_findings.json."),
+ "C10": dict(
+    technique="TLA+ abstract-interpretation model of a declared-zero cell flowing through every solver statement and warm-start history (spec/est/ZeroFlow.tla; ZeroStaysZero, NoNaN) model-checked by TLC; its transfer table replayed per transition on real Factor operations; estimators run end to end on enumerated zero placements x solvers x histories",
+    category="model_checking", design_ref="4 C10",
+    text="TLC explores the abstract extended-real flow (-inf, finite, log(1e-100), +-1.8e308 from nan_to_num, +inf, nan) of one structurally impossible cell through MD/RDA/IG (0-2 iterations, early exits, mle with its 1e-100 smoothing) and warm/cold histories of length <= 3 mixing solvers, checking that no returned representation gives it mass and NaN is unreachable; every row of the transfer table of Factor +, -, scalar*, CliqueVector - is executed on real Factors. End to end, zero sets on a measured clique, a sub-clique and an unmeasured pair (scattered cells, whole rows/columns that kill a separator value) are estimated with every solver through cold, warm, shrinking and growing histories; in-clique and out-of-clique answers, the full vector and synthetic records must give the declared cells mass <= 1e-12 x total, sum to total and contain no NaN.",
+    note="Assumes finite values stay finite (no overflow by magnitude). Synthetic data checked with 200 rows."),
 }
 
 NOT_YET = "check not built yet (work in progress, see DESIGN.md section 8 build order)"
